@@ -187,8 +187,8 @@ Definition recorded_values (k : key) (ls : list label) : list (N * N) :=
                      | LHRec k' b t => if key_eqb k k' && (0 <? t) then [(hist_value b, t)] else []
                      | _ => []
                      end) ls.
-(* reported (value, count): Repeated { total, occurrences } with total = value * occurrences exactly representable
-   here (value, count < 2^32 and the generator keeps the product below 2^53) *)
+(* reported (value, count): Repeated { total, occurrences } with total = value * occurrences rounded to binary64;
+   the value is recovered as the nearest integer quotient, exact up to that rounding *)
 Definition reported_values (k : key) (es : list (list item)) : option (list (N * N)) :=
   let obs := flat_map (fun e => flat_map (fun it => match it with
                                                     | IMetric name os _ dims => if key_eqb k (name, dims) && is_hist_item it then os else []
@@ -198,8 +198,10 @@ Definition reported_values (k : key) (es : list (list item)) : option (list (N *
     match o, acc with
     | OR t c, Some l =>
         if c =? 0 then Some l
-        else let total := to_u64 (of_bits t) in
-             if (total mod c =? 0) && (to_bits (of_u64 total) =? t) then Some ((total / c, c) :: l) else None
+        else let total := to_u64 (of_bits t) in          (* an integer: a product of two integers, rounded *)
+             let v := (total + c / 2) / c in
+             let err := if v * c <=? total then total - v * c else v * c - total in
+             if (to_bits (of_u64 total) =? t) && (err * 2 ^ 52 <=? total) then Some ((v, c) :: l) else None
     | _, _ => None
     end) (Some []) obs.
 
